@@ -9,6 +9,7 @@ LEAN_TARGETS = ['Props.C13']
 REQUIRED_THEOREMS = ['Props.C13.eval_keeps_state', 'Props.C13.train_updates_once', 'Props.C13.running_mean_exponential',
                      'Props.C13.running_mean_cumulative', 'Props.C13.no_track_uses_batch_stats', 'Props.C13.dropout_eval_identity',
                      'Props.C13.dropout_train_spec', 'Props.C13.dropout_backward_same_mask',
+                     'Props.C13.init_owns_by_options', 'Props.C13.forward_keeps_owned',
                      'Props.C13.attach_keeps_modes', 'Props.C13.register_keeps_modes', 'Props.C13.container_keeps_modes']
 RULE = ('BatchNorm: option grid momentum in {None, 0, .1, .5, 1} x affine x track_running_stats x input rank 2/3/4, random running '
         'statistics and affine parameters, histories of train/eval switches and forward calls on batches of varying size '
@@ -17,7 +18,16 @@ RULE = ('BatchNorm: option grid momentum in {None, 0, .1, .5, 1} x affine x trac
         'mask relation is exact; backward through the same mask. BACKWARD passes inside the histories: forwards on inputs that require grad '
         '(affine parameters trainable or frozen), any pending output back-propagated later, in any order, more than once, after further '
         'mode switches and forwards; after every backward and after every eval / untracked forward the buffers, the counter and the mode '
-        'must be BIT-IDENTICAL to what they were before the call (kept=1). ATTACHMENT histories (BatchNorm and Dropout): the layer is '
+        'must be BIT-IDENTICAL to what they were before the call (kept=1). CONSTRUCTOR CALLS: BatchNorm1d AND BatchNorm2d, the options '
+        '(eps, momentum, affine, track_running_stats, dtype) handed over positionally up to any position and by keyword from there on, options '
+        'equal to their defaults left out or written; which of weight / bias / running_mean / running_var / num_batches_tracked exist after '
+        'construction, then the history against the model configured with the SAME options. DROPOUT ON EXACT ZEROS: inputs that are ReLU '
+        'outputs / one-hot / sparse rows (and upstream gradients that are not 0 there), through the layer object and through '
+        'nn.functional.dropout where it exists; every sampling function of np.random is wrapped, the draws of a call are used when they are one '
+        'array of uniforms of the size of the input, otherwise (other sampler, private generator, no draw) the relations that need no draws '
+        'are checked: output in {0, x/(1-p)}, gradient in {0, g/(1-p)} with the zero pattern of the output wherever x != 0, p = 0 keeps and '
+        'p = 1 drops everything also where x = 0; `dropstat`: 2048 elements, about half of them exact zeros, p in {0, .25, .5, .9}, float64 / '
+        'float32: the fraction of zero-valued inputs that receive gradient must be 1-p (6 sigma), as must the fraction of survivors. ATTACHMENT histories (BatchNorm and Dropout): the layer is '
         'node 0 of a module tree that is built while the history runs - containers (Sequential / user Module) constructed around existing '
         'nodes, attribute assignment and register_module of any node under any other, re-attachment to another parent, detaching by '
         'assigning None / a plain value / another module under the name - interleaved with train()/eval() on ANY node and with forward '
@@ -25,14 +35,41 @@ RULE = ('BatchNorm: option grid momentum in {None, 0, .1, .5, 1} x affine x trac
         'through the registrations that existed at the time of that call. Non-trivial: a history with >= 2 training forwards and a mode switch.')
 EXHAUSTIVE = {'quick': False, 'thorough': False}
 ASSUMPTIONS = ['float64 layers; np.mean/np.var pairwise summation differs from the model fold by rounding only (rel 1e-9 accepted)',
-               'np.random.rand draws are captured, their distribution is trusted']
+               'the draws of the global NumPy generator are captured (every sampler of np.random), their distribution is trusted; draws that '
+               'cannot be attributed are replaced by the relations stated in RULE (and a 6-sigma frequency test on 2048 elements)']
 TRUSTED_BASE = ['harness/props/c13.py (generator, canonicalisation)']
 MOMENTA = [None, 0.1, 0.5, 1.0, 0.0, 0.0]      # 0.0: the running statistics never move (a falsy value that is not None)
 VIA = ['self', 'self', 'parent', 'root']
 TNAMES = ['a', 'b', 'layer', '0', '1', '_m']      # attribute names used when a node is attached to a parent (a small pool: names get re-assigned)
 
 
-def gen_bn(rng, tier, mo, affine, track, rank):
+BN_DEFAULTS = {'eps': 1e-5, 'momentum': 0.1, 'affine': True, 'track_running_stats': True}
+
+
+def gen_ctor(rng, cls=None, npos=None):
+    """how the constructor is called: the class, how many leading arguments are positional (1 = only num_features ... 6 = all of
+    num_features, eps, momentum, affine, track_running_stats, dtype), whether keyword options that equal their default are left out"""
+    return {'cls': cls or rng.pick(['1d', '2d']), 'npos': npos or rng.pick([1, 1, 2, 3, 4, 5, 5, 6, 6]), 'omit': rng.chance(.4)}
+
+
+def bn_call(c):
+    """(class name, positional arguments, keyword arguments) of the constructor call of the case"""
+    vals = [('num_features', c['C']), ('eps', c['eps']), ('momentum', c['mo']), ('affine', c['affine']), ('track_running_stats', c['track']), ('dtype', np.float64)]
+    npos = c.get('npos', 1)
+    dflt = lambda k, v: k in BN_DEFAULTS and type(v) is type(BN_DEFAULTS[k]) and v == BN_DEFAULTS[k]
+    return ('BatchNorm2d' if c.get('cls') == '2d' else 'BatchNorm1d', [v for _, v in vals[:npos]],
+            {k: v for k, v in vals[npos:] if not (c.get('omit') and dflt(k, v))})
+
+
+def show_call(c):
+    name, pos, kw = bn_call(c)
+    sh = lambda v: 'float64' if v is np.float64 else repr(v)
+    return f"{name}({', '.join([sh(v) for v in pos] + [f'{k}={sh(v)}' for k, v in kw.items()])})"
+
+
+def gen_bn(rng, tier, mo, affine, track, rank, ctor=None):
+    ctor = ctor or gen_ctor(rng)
+    if ctor['cls'] == '2d': rank = 4
     C = rng.randint(1, 3)
     rest = {2: (), 3: (rng.randint(1, 3),), 4: (rng.randint(1, 2), rng.randint(1, 3))}[rank]
     evs = []
@@ -49,7 +86,7 @@ def gen_bn(rng, tier, mo, affine, track, rank):
         else:
             evs.append(gen_fwd(rng, C, rest, bw))
             if bw: evs += gen_bwd(rng, affine)
-    return {'kind': 'bn', 'C': C, 'mo': mo, 'eps': rng.pick([1e-5, 1e-3, 0.5]), 'affine': affine, 'track': track, 'evs': evs}
+    return dict(ctor, kind='bn', C=C, mo=mo, eps=rng.pick([1e-5, 1e-5, 1e-3, 0.5]), affine=affine, track=track, evs=evs)
 
 
 def gen_fwd(rng, C, rest, bw):
@@ -80,7 +117,8 @@ def gen_tree(rng, tier, layer, directed):
     evs = []
     if layer == 'bn':
         C = rng.randint(1, 3)
-        rank = rng.pick([2, 3, 4])
+        c.update(gen_ctor(rng))
+        rank = 4 if c['cls'] == '2d' else rng.pick([2, 3, 4])
         rest = {2: (), 3: (rng.randint(1, 3),), 4: (rng.randint(1, 2), rng.randint(1, 3))}[rank]
         c.update(C=C, mo=rng.pick(MOMENTA), eps=rng.pick([1e-5, 1e-3, 0.5]), affine=rng.chance(.5), track=rng.chance(.85))
         if c['track'] and rng.chance(0.7):
@@ -94,7 +132,7 @@ def gen_tree(rng, tier, layer, directed):
         n = rng.randint(2, 8)
         c.update(p=rng.pick([0.5, 0.25, 0.9, 0.1, 0.0, 1.0, rng.random()]), seed=rng.randrange(2 ** 31), n=n)
         def call():
-            return [('dfwd', [rng.dyadic(-4, 4) or 1.0 for _ in range(n)], [rng.dyadic(-2, 2) for _ in range(n)])]
+            return [('dfwd', gen_xs(rng, n), gen_gs(rng, n))]
     sub = [{}]                 # node -> {name: child}: kept to avoid cycles and to aim at names that are in use
     def reaches(a, b):         # b is a or a descendant of a
         return a == b or any(reaches(k, b) for k in sub[a].values())
@@ -160,42 +198,174 @@ def gen_tree(rng, tier, layer, directed):
     return c
 
 
-def gen_drop(rng):
+XSTYLES = ['any', 'any', 'relu', 'relu', 'onehot', 'sparse']
+
+
+def gen_xs(rng, n, style=None):
+    """input of a Dropout call: any values, or with EXACT zeros as after a ReLU / in one-hot and sparse rows"""
+    style = style or rng.pick(XSTYLES)
+    if style == 'relu': return [max(0.0, rng.dyadic(-4, 4)) for _ in range(n)]
+    if style == 'onehot':
+        k = rng.randrange(n)
+        return [1.0 if i == k else 0.0 for i in range(n)]
+    if style == 'sparse': return [rng.dyadic(-4, 4) if rng.chance(.4) else 0.0 for _ in range(n)]
+    return [rng.dyadic(-4, 4) for _ in range(n)]
+
+
+def gen_gs(rng, n):
+    """upstream gradient: seldom 0 (only a non-zero one shows the mask where the input is 0)"""
+    return [rng.dyadic(-2, 2) or rng.pick([1.0, -0.5, 0.0, 2.0]) for _ in range(n)]
+
+
+def drop_forms():
+    """the ways to call dropout that exist in the tree under test"""
+    common.impl()
+    from synapgrad.nn import functional as F
+    return ['layer', 'layer', 'functional'] if callable(getattr(F, 'dropout', None)) else ['layer']
+
+
+def gen_drop(rng, forms=('layer',)):
     n = rng.randint(1, 8)
-    return {'kind': 'drop', 'p': rng.pick([0.0, 1.0, 0.5, 0.1, 0.25, 0.9, rng.random()]), 'training': rng.chance(0.75),
-            'xs': [rng.dyadic(-4, 4) for _ in range(n)], 'gs': [rng.dyadic(-2, 2) for _ in range(n)], 'seed': rng.randrange(2 ** 31),
-            'shape': rng.pick([(n,), (1, n), (n, 1)])}
+    return {'kind': 'drop', 'p': rng.pick([0.0, 0.0, 1.0, 0.5, 0.1, 0.25, 0.9, rng.random()]), 'training': rng.chance(0.75),
+            'xs': gen_xs(rng, n), 'gs': gen_gs(rng, n), 'seed': rng.randrange(2 ** 31),
+            'shape': rng.pick([(n,), (1, n), (n, 1)]), 'via': rng.pick(list(forms))}
 
 
-def gen_dropseq(rng):
+def gen_dropstat(rng, p, via, dt):
+    return {'kind': 'dropstat', 'p': p, 'via': via, 'dt': dt, 'n': 2048, 'style': rng.pick(['relu', 'relu', 'sparse']),
+            'shape': rng.pick([(2048,), (32, 64), (8, 16, 16)]), 'seed': rng.randrange(2 ** 31)}
+
+
+class Draws:
+    """wraps EVERY sampling function of the global NumPy generator (np.random.rand, random_sample, random, uniform, binomial, ...)
+    while a layer runs and records what each call returned; nothing is assumed about which one the layer uses"""
+    SKIP = ('seed', 'get_state', 'set_state', 'get_bit_generator', 'set_bit_generator')
+
+    def __enter__(self):
+        g = np.random.mtrand._rand
+        self.calls, self.orig = [], {}
+        for name in dir(np.random):
+            f = getattr(np.random, name)
+            if getattr(f, '__self__', None) is g and name not in self.SKIP:
+                self.orig[name] = f
+                setattr(np.random, name, self._wrap(name, f))
+        return self
+
+    def _wrap(self, name, f):
+        def sampler(*a, **k):
+            r = f(*a, **k)
+            self.calls.append((name, np.array(r, copy=True)))
+            return r
+        return sampler
+
+    def __exit__(self, *exc):
+        for name, f in self.orig.items(): setattr(np.random, name, f)
+
+    def take(self):
+        calls, self.calls = self.calls, []
+        return calls
+
+
+def uniforms(calls, n):
+    """the draws of one Dropout call, if they can be attributed: ONE sampler call that returned n floats in [0, 1)"""
+    if len(calls) != 1: return None
+    r = calls[0][1]
+    if r.dtype.kind != 'f' or r.size != n or not bool(((r >= 0) & (r < 1)).all()): return None
+    return [float(v) for v in r.ravel()]
+
+
+def ndrawn(calls):
+    return sum(int(r.size) for _, r in calls)
+
+
+def stand_ins(p, xs, gs, y, g):
+    """stand-ins for draws that could not be attributed: p = 0 keeps and p = 1 drops every element whatever was drawn; otherwise an
+    element counts as dropped when its output is 0 (x != 0), or - where x = 0 hides the mask - when its gradient is 0 (g != 0). The
+    model then checks the values (0 or exactly v/(1-p)) and that output and gradient follow ONE mask."""
+    n = len(xs)
+    if not 0 < p < 1 or y is None or len(y) != n: return [0.5] * n
+    keep, drop = (1 + p) / 2, p / 2
+    out = []
+    for i in range(n):
+        if xs[i] != 0: out.append(drop if y[i] == 0 else keep)
+        elif g is not None and len(g) == n and gs[i] != 0: out.append(drop if g[i] == 0 else keep)
+        else: out.append(keep)
+    return out
+
+
+def dropper(c, nn, training=True):
+    """(callable, layer or None) for the form of the case"""
+    from synapgrad.nn import functional as F
+    if c.get('via', 'layer') == 'functional' and callable(getattr(F, 'dropout', None)):      # (a tree without the function: the layer)
+        def f(x):
+            try:
+                return F.dropout(x, p=c['p'], training=training)
+            except TypeError:
+                return F.dropout(x, c['p'], training)
+        return f, None
+    d = nn.Dropout(c['p'])
+    if not training: d.eval()
+    return d, d
+
+
+def relations(p, x, gu, y, gr, rtol=1e-12, stat=False):
+    """what the property says about ONE training-mode call without reference to the draws (arrays of one shape): None or (class, text)"""
+    x, gu, y, gr = [np.asarray(a, dtype=np.float64).ravel() for a in (x, gu, y, gr)]
+    s = 1 / (1 - p) if p < 1 else 0.0
+    near = lambda a, b: np.abs(a - b) <= rtol * (1 + np.abs(b))
+    if not bool(((y == 0) | near(y, x * s)).all()):
+        return 'forward', f'an output element is neither 0 nor x/(1-p): x={x[:12].tolist()} y={y[:12].tolist()} p={p}'
+    if not bool(((gr == 0) | near(gr, gu * s)).all()):
+        return 'backward', f'a gradient element is neither 0 nor g/(1-p): g={gu[:12].tolist()} grad={gr[:12].tolist()} p={p}'
+    if p == 0 and not bool((near(y, x) & near(gr, gu)).all()):
+        bad = np.flatnonzero(~(near(y, x) & near(gr, gu)))[:6].tolist()
+        return 'backward-mask' if bool(near(y, x).all()) else 'forward', (f'p=0 drops nothing, yet elements {bad} (inputs {x[bad].tolist()}) give output '
+                f'{y[bad].tolist()} and gradient {gr[bad].tolist()} for upstream {gu[bad].tolist()}')
+    if p >= 1 and (y.any() or gr.any()):
+        return 'forward', 'p=1 drops everything, yet output / gradient are not all 0'
+    vis = (x != 0) & (gu != 0)
+    if not bool(((y != 0) == (gr != 0))[vis].all()):
+        bad = np.flatnonzero(vis & ((y != 0) != (gr != 0)))[:6].tolist()
+        return 'backward-mask', f'elements {bad}: output {y[bad].tolist()} but gradient {gr[bad].tolist()} (upstream {gu[bad].tolist()}): forward and backward use different masks'
+    if stat and 0 < p < 1:
+        for where, sel, kept in (('whose input is exactly 0', (x == 0) & (gu != 0), gr != 0), ('with a non-zero input', x != 0, y != 0)):
+            m = int(sel.sum())
+            if m < 200: continue
+            frac = float(kept[sel].mean())
+            if abs(frac - (1 - p)) > 6 * (p * (1 - p) / m) ** .5:
+                return ('backward-mask-zero-input' if 'exactly' in where else 'rate'), (f'{m} elements {where}: a fraction {1 - p:.3f} of them survives the mask and must '
+                        f'{"receive gradient g/(1-p)" if "exactly" in where else "be passed on"}, observed {frac:.4f}')
+    return None
+
+
+def gen_dropseq(rng, forms=('layer',)):
     """ONE Dropout layer called several times in training mode on inputs of the same shape; the outputs are back-propagated
     later and in another order: each must go through the mask of its own forward call"""
     n = rng.randint(2, 6)
     k = rng.randint(2, 4)
     order = rng.sample(list(range(k)), k)
     if order == sorted(order): order.reverse()
-    return {'kind': 'dropseq', 'p': rng.pick([0.5, 0.25, 0.7, 0.4]), 'n': n, 'k': k, 'order': order, 'seed': rng.randrange(2 ** 31),
-            'xs': [[rng.dyadic(-4, 4) for _ in range(n)] for _ in range(k)], 'gs': [[rng.dyadic(-2, 2) for _ in range(n)] for _ in range(k)]}
+    style = rng.pick([None, None, 'relu', 'sparse'])      # one kind of input for all calls of the layer, or any mixture
+    return {'kind': 'dropseq', 'p': rng.pick([0.5, 0.25, 0.7, 0.4, 0.9, 0.0]), 'n': n, 'k': k, 'order': order, 'seed': rng.randrange(2 ** 31),
+            'xs': [gen_xs(rng, n, style) for _ in range(k)], 'gs': [gen_gs(rng, n) for _ in range(k)], 'via': rng.pick(list(forms))}
 
 
 def _dropseq_impl(c):
     sg = common.impl()
     from synapgrad import nn
-    caps = []
-    orig = np.random.rand
-    def rand(*a):
-        r = orig(*a); caps.append(r.copy()); return r
     np.random.seed(c['seed'])
-    np.random.rand = rand
-    try:
-        d = nn.Dropout(c['p'])
+    c['_us_list'], c['_attr'] = [[0.5] * c['n']] * c['k'], [False] * c['k']
+    with Draws() as dr:
+        d, _ = dropper(c, nn)
         xs = [sg.Tensor(np.array(v, dtype=np.float64), requires_grad=True) for v in c['xs']]
-        ys = [d(x) for x in xs]                                  # all forwards first
+        ys, caps = [], []
+        for x in xs:                                             # all forwards first
+            dr.take(); ys.append(d(x)); caps.append(uniforms(dr.take(), c['n']))
         for j in c['order']:                                     # backward later, in another order
             ys[j].backward(sg.Tensor(np.array(c['gs'][j], dtype=np.float64)))
-    finally:
-        np.random.rand = orig
-    c['_us_list'] = [[float(v) for v in u.ravel()] for u in caps]
+    c['_attr'] = [u is not None for u in caps]
+    c['_us_list'] = [u if u is not None else stand_ins(c['p'], c['xs'][j], c['gs'][j], ys[j].data.ravel().tolist(), xs[j].grad.data.ravel().tolist())
+                     for j, u in enumerate(caps)]
     out = []
     for j in range(c['k']):
         out += [show_floats(ys[j].data.ravel()), show_floats(xs[j].grad.data.ravel())]
@@ -209,11 +379,14 @@ def lines_of(c):
             us = show_floats(c['_us_list'][j])
             out += [f"bn drop {fbits(c['p'])} 1 {show_floats(c['xs'][j])} {us}", f"bn dropbw {fbits(c['p'])} {show_floats(c['gs'][j])} {us}"]
         return out
+    if c['kind'] == 'dropstat':
+        return []
     if c['kind'] == 'drop':
         return [f"bn drop {fbits(c['p'])} {int(c['training'])} {show_floats(c['xs'])} {{us}}", f"bn dropbw {fbits(c['p'])} {show_floats(c['gs'])} {{us}}"]
     out = []
     if c.get('layer') != 'drop':
         out.append(f"bn new {c['C']} {show_opt(lambda v: str(fbits(v)), c['mo'])} {fbits(c['eps'])} {int(c['affine'])} {int(c['track'])}")
+        out.append('bn attrs')
     if c['kind'] == 'tree': out.append('bn tree')
     nd = 0
     for e in c['evs']:
@@ -236,27 +409,39 @@ def lines_of(c):
 
 def cases(rng, tier):
     out = []
-    for mo, affine, track, rank in itertools.product(MOMENTA, [False, True], [False, True], [2, 3, 4]):
+    # the option grid, each point constructed all-keyword and all-positional, as BatchNorm1d and as BatchNorm2d
+    for cls, mo, affine, track, npos in itertools.product(['1d', '2d'], [None, 0.1, 0.5, 1.0, 0.0], [False, True], [False, True], [1, 6]):
         for _ in range(1 if tier == 'quick' else 20):
-            out.append(gen_bn(rng, tier, mo, affine, track, rank))
+            out.append(gen_bn(rng, tier, mo, affine, track, rng.pick([2, 3, 4]), gen_ctor(rng, cls, npos)))
     for _ in range(40 if tier == 'quick' else 1500):
         out.append(gen_bn(rng, tier, rng.pick(MOMENTA), rng.chance(.5), rng.chance(.7), rng.pick([2, 3, 4])))
-    for _ in range(60 if tier == 'quick' else 1500):
-        out.append(gen_drop(rng))
+    forms = drop_forms()
+    for _ in range(80 if tier == 'quick' else 1500):
+        out.append(gen_drop(rng, forms))
     for _ in range(30 if tier == 'quick' else 800):
-        out.append(gen_dropseq(rng))
+        out.append(gen_dropseq(rng, forms))
+    for via in sorted(set(forms)):
+        for p in (0.0, 0.25, 0.5, 0.9):
+            for dt in ('f64', 'f32') if tier != 'quick' else (rng.pick(['f64', 'f64', 'f32']),):
+                for _ in range(1 if tier == 'quick' else 10):
+                    out.append(gen_dropstat(rng, p, via, dt))
     for layer, n in (('bn', 50 if tier == 'quick' else 1500), ('drop', 40 if tier == 'quick' else 1000)):
         for i in range(n):
             out.append(gen_tree(rng, tier, layer, directed=i % 2 == 0))
     for c in out:
-        if c['kind'] == 'tree' and c['layer'] == 'drop':
-            _tree_drop_impl(c)       # captures the draws of every call
-        if c['kind'] == 'dropseq':
-            _dropseq_impl(c)
-        if c['kind'] == 'drop':
-            _drop_impl(c)            # needs the captured draws to build the model's request
+        try:       # (a call that raises leaves the stand-in draws in place; impl() / oracle() report the rejection)
+            if c['kind'] == 'tree' and c['layer'] == 'drop':
+                _tree_drop_impl(c)       # captures the draws of every call
+            if c['kind'] == 'dropseq':
+                _dropseq_impl(c)
+            if c['kind'] == 'drop':
+                _drop_impl(c)            # needs the captured draws to build the model's request
+        except Exception:
+            pass
         c['lines'] = [l.format(us=show_floats(c.get('_us', []))) for l in lines_of(c)]
-        c['desc'] = ' ; '.join(c['lines'])[:600]
+        if c['kind'] == 'bn' or c.get('layer') == 'bn': c['ctor'] = show_call(c)
+        c['desc'] = c['ctor'] + ' : ' + ' ; '.join(c['lines'])[:560] if 'ctor' in c else ' ; '.join(c['lines'])[:600] if c['kind'] != 'dropstat' else f"dropstat p={c['p']} via={c['via']} {c['dt']} shape={c['shape']} zeros={c['style']}"
+        if 'via' in c: c['desc'] = f"[{c['via']}] " + c['desc']
     return out
 
 
@@ -332,7 +517,8 @@ class BNWorld:
         self.sg = common.impl()
         from synapgrad import nn
         self.c = c
-        self.bn = bn = nn.BatchNorm1d(c['C'], eps=c['eps'], momentum=c['mo'], affine=c['affine'], track_running_stats=c['track'], dtype=np.float64)
+        name, pos, kw = bn_call(c)
+        self.bn = bn = getattr(nn, name)(*pos, **kw)
         if c['kind'] == 'tree':
             self.tree = Tree(bn)
         else:
@@ -344,7 +530,7 @@ class BNWorld:
         """every event but the forward and backward calls"""
         bn = self.bn
         if e[0] == 'setstats':
-            if bn.running_mean is not None:
+            if getattr(bn, 'running_mean', None) is not None:
                 bn.running_mean.data = np.array(e[1], dtype=np.float64); bn.running_var.data = np.array(e[2], dtype=np.float64)
             return 'ok'
         if e[0] == 'setaffine':
@@ -375,10 +561,17 @@ class BNWorld:
         return True
 
 
+def _attrs(bn):
+    """what the layer owns after construction"""
+    has = lambda n: int(getattr(bn, n, None) is not None)
+    return (f"weight={has('weight')} bias={has('bias')} running_mean={has('running_mean')} running_var={has('running_var')} "
+            f"nbt={getattr(bn, 'num_batches_tracked', None)} params={len(bn.parameters())}")
+
+
 def _bn_impl(c):
     out = []
     w = BNWorld(c)
-    out.append('ok')
+    out += ['ok', _attrs(w.bn)]
     if c['kind'] == 'tree': out.append('m0')
     for e in c['evs']:
         s0 = _snap(w.bn)
@@ -400,20 +593,16 @@ def _tree_drop_impl(c):
     call are captured (none are made in eval mode)"""
     sg = common.impl()
     from synapgrad import nn
-    caps = []
-    orig = np.random.rand
-    def rand(*a):
-        r = orig(*a); caps.append(r.copy()); return r
     np.random.seed(c['seed'])
-    np.random.rand = rand
     out, us_list, calls = ['m0'], [], []
-    try:
+    c['_us_list'], c['_calls'] = [[0.5] * c['n']] * sum(e[0] == 'dfwd' for e in c['evs']), []
+    with Draws() as dr:
         d = nn.Dropout(c['p'])
         tree = Tree(d)
         for e in c['evs']:
             if e[0] != 'dfwd':
                 out.append(outcome(lambda: tree.do(e))); continue
-            del caps[:]
+            dr.take()
             x = sg.Tensor(np.array(e[1], dtype=np.float64), requires_grad=True)
             mode = bool(d.training)
             def go():
@@ -422,15 +611,15 @@ def _tree_drop_impl(c):
                     y.backward(sg.Tensor(np.array(e[2], dtype=np.float64)))
                 return y
             y = outcome(go)
-            us = [float(v) for u in caps for v in u.ravel()]
-            us_list.append(us if len(us) == c['n'] else [0.5] * c['n'])
+            drawn = dr.take()
+            us = uniforms(drawn, c['n'])
             if isinstance(y, str):
-                out += [y, y]; calls.append({'rejected': True})
+                out += [y, y]; calls.append({'rejected': True}); us_list.append(us or [0.5] * c['n'])
             else:
+                yl, gl = [float(v) for v in y.data.ravel()], [float(v) for v in x.grad.data.ravel()]
+                us_list.append(us if us is not None else stand_ins(c['p'], e[1], e[2], yl, gl) if mode else [0.5] * c['n'])
                 out += [f"training={int(mode)} y={show_floats(y.data.ravel())}", f"g={show_floats(x.grad.data.ravel())}"]
-                calls.append({'mode': mode, 'same': y is x, 'draws': len(us), 'y': [float(v) for v in y.data.ravel()], 'g': [float(v) for v in x.grad.data.ravel()]})
-    finally:
-        np.random.rand = orig
+                calls.append({'mode': mode, 'same': y is x, 'draws': ndrawn(drawn), 'attributed': us is not None, 'y': yl, 'g': gl})
     c['_us_list'], c['_calls'] = us_list, calls
     return out
 
@@ -438,30 +627,46 @@ def _tree_drop_impl(c):
 def _drop_impl(c):
     sg = common.impl()
     from synapgrad import nn
-    cap = {}
-    orig = np.random.rand
-    def rand(*a):
-        r = orig(*a); cap['u'] = r.copy(); return r
     np.random.seed(c['seed'])
-    np.random.rand = rand
-    try:
-        d = nn.Dropout(c['p'])
-        if not c['training']: d.eval()
+    c['_us'], c['_same'], c['_attr'], c['_draws'] = [0.5] * len(c['xs']), None, False, 0
+    with Draws() as dr:
+        d, layer = dropper(c, nn, c['training'])
         x = sg.Tensor(np.array(c['xs'], dtype=np.float64).reshape(c['shape']), requires_grad=True)
+        dr.take()
         y = d(x)
-        same = y is x
+        drawn = dr.take()
+        same = y is x if layer is not None else None          # the layer in eval mode hands its input on; the function need only return its values
         res = [float(v) for v in y.data.ravel()]
         if c['training']:
             y.backward(sg.Tensor(np.array(c['gs'], dtype=np.float64).reshape(c['shape'])))
             gr = [float(v) for v in x.grad.data.ravel()]
         else:
             gr = None
-    finally:
-        np.random.rand = orig
-    us = [float(v) for v in cap['u'].ravel()] if 'u' in cap else [0.5] * len(c['xs'])
-    c['_us'] = us
+    us = uniforms(drawn, len(c['xs']))
+    c['_attr'], c['_draws'] = us is not None, ndrawn(drawn)
+    c['_us'] = us if us is not None else stand_ins(c['p'], c['xs'], c['gs'], res, gr) if c['training'] else [0.5] * len(c['xs'])
     c['_same'] = same
     return res, gr
+
+
+def _dropstat_impl(c):
+    """one training-mode call on 2048 elements, about half of them exact zeros; judged by `relations` (no draws needed)"""
+    sg = common.impl()
+    from synapgrad import nn
+    r = np.random.RandomState(c['seed'])
+    dt = np.float32 if c['dt'] == 'f32' else np.float64
+    x = r.randn(c['n'])
+    if c['style'] == 'relu': x[x < 0] = 0.0
+    else: x[r.rand(c['n']) < .5] = 0.0
+    x = x.astype(dt).reshape(c['shape'])
+    g = (r.rand(c['n']) + 0.5).astype(dt).reshape(c['shape'])
+    np.random.seed(c['seed'])
+    d, _ = dropper(c, nn)
+    xt = sg.Tensor(x.copy(), requires_grad=True)
+    y = d(xt)
+    with common.quiet():
+        y.backward(sg.Tensor(g.copy()))
+    return relations(c['p'], x, g, y.data, xt.grad.data, rtol=1e-6 if c['dt'] == 'f32' else 1e-12, stat=True)
 
 
 def impl(c):
@@ -472,6 +677,9 @@ def impl(c):
     if c['kind'] == 'dropseq':
         r = outcome(lambda: _dropseq_impl(c))
         return [r] * (2 * c['k']) if isinstance(r, str) else r
+    if c['kind'] == 'dropstat':
+        c['_verdict'] = outcome(lambda: _dropstat_impl(c))
+        return []
     r = outcome(lambda: _drop_impl(c))
     if isinstance(r, str):
         return [r, r]
@@ -512,8 +720,10 @@ def _close_line(m, i):
 
 def compare(c, mo, io):
     diffs = [(c['lines'][k][:80], m[:200], str(i)[:200]) for k, (m, i) in enumerate(zip(mo, io)) if not _close_line(m, i)]
-    if c['kind'] == 'drop' and not c['training'] and c.get('_same') is False:
-        diffs.append(('eval', 'identity (same tensor)', 'new tensor'))
+    if c['kind'] == 'drop' and not c['training'] and (c.get('_same') is False or c.get('_draws')):
+        diffs.append(('eval', 'identity (same tensor, no draw)', f"same={c.get('_same')} draws={c.get('_draws')}"))
+    if c['kind'] == 'dropstat' and c.get('_verdict') is not None:
+        diffs.append((c['desc'], 'the relations between input, output and gradient of a training-mode call', str(c['_verdict'])[:300]))
     if c['kind'] == 'tree' and c['layer'] == 'drop':
         for k, cl in enumerate(c.get('_calls', [])):
             if not cl.get('rejected') and not cl['mode'] and (not cl['same'] or cl['draws']):
@@ -522,7 +732,7 @@ def compare(c, mo, io):
 
 
 def nontrivial(c):
-    if c['kind'] == 'dropseq':
+    if c['kind'] in ('dropseq', 'dropstat'):
         return True
     if c['kind'] == 'tree':
         return sum(e[0] in ('fwd', 'dfwd') for e in c['evs']) >= 2 and any(e[0] == 'tmode' for e in c['evs'])
@@ -557,9 +767,15 @@ def distribution(cases):
                 elif e[0] in ('fwd', 'dfwd'):
                     inc(f"tree: call with the layer in {'train' if spec.mode[0] else 'eval'} mode" + (', attached since its last mode switch' if attached_since_switch else ''))
         else:
-            k = c['kind'] + (f"/mo={c['mo']}/track={int(c['track'])}" if c['kind'] == 'bn' else '' if c['kind'] == 'dropseq' else f"/train={int(c['training'])}")
+            k = c['kind'] + (f"/mo={c['mo']}/track={int(c['track'])}" if c['kind'] == 'bn' else '' if c['kind'] == 'dropseq' else
+                             f"/p={c['p']}/{c['dt']}" if c['kind'] == 'dropstat' else f"/train={int(c['training'])}")
             inc(k)
+        _drop_dist(c, inc)
         if c['kind'] in ('bn', 'tree') and c.get('layer') != 'drop':
+            name, pos, kw = bn_call(c)
+            inc(f"ctor: {name}, {len(pos)} positional / {len(kw)} keyword arguments")
+            inc(f"ctor: {name} affine={int(c['affine'])} track_running_stats={int(c['track'])} " + ('all positional' if c.get('npos') == 6 else 'all keyword' if c.get('npos', 1) == 1 else 'mixed'))
+            if len(pos) + len(kw) < 6: inc('ctor: options equal to their default left out')
             training, pend = True, 0
             spec = ModeSpec()
             for e in c['evs']:
@@ -573,6 +789,25 @@ def distribution(cases):
     return d
 
 
+def _drop_dist(c, inc):
+    """Dropout calls: form, exact zeros in the input, whether the draws could be attributed"""
+    if c['kind'] == 'drop' and c['training']: calls = [(c['xs'], c['gs'], c.get('_attr'))]
+    elif c['kind'] == 'dropseq': calls = [(x, g, a) for x, g, a in zip(c['xs'], c['gs'], c.get('_attr', [None] * c['k']))]
+    elif c['kind'] == 'tree' and c['layer'] == 'drop':
+        cl = [k for k in c.get('_calls', [])]
+        ev = [e for e in c['evs'] if e[0] == 'dfwd']
+        calls = [(e[1], e[2], k.get('attributed')) for e, k in zip(ev, cl) if k.get('mode')]
+    elif c['kind'] == 'dropstat':
+        inc(f"dropout via {c['via']}: frequency test on {c['n']} elements with exact zeros"); return
+    else: return
+    for xs, gs, a in calls:
+        inc(f"dropout training call via {c.get('via', 'layer')}")
+        nz = sum(1 for x, g in zip(xs, gs) if x == 0 and g != 0)
+        inc('dropout training call: input holds exact zeros (with a non-zero upstream gradient there)' if nz else 'dropout training call: no zero in the input')
+        if nz and c['p'] == 0: inc('dropout training call: p = 0 on an input with exact zeros')
+        inc('dropout training call: draws ' + ('captured (one array of uniforms)' if a else 'NOT attributed (relations only)'))
+
+
 # ---- property predicate on the implementation alone (independent NumPy recomputation) ---------
 def oracle(c):
     sg = common.impl()
@@ -581,12 +816,16 @@ def oracle(c):
         r = outcome(lambda: _dropseq_impl(c))
         if isinstance(r, str):
             return {'key': {'kind': 'dropseq', 'cls': 'rejected'}, 'case': _strip(c), 'what': 'Dropout sequence raised'}
-        p = c['p']; scale = 1 / (1 - p)
+        p = c['p']; scale = 1 / (1 - p) if p < 1 else 1.0
         for j in range(c['k']):
             us = c['_us_list'][j]
+            gy, gg = common.parse_floats(r[2 * j]), common.parse_floats(r[2 * j + 1])
+            if not c['_attr'][j]:
+                v = relations(p, c['xs'][j], c['gs'][j], gy, gg)
+                if v: return {'key': {'kind': 'dropseq', 'cls': v[0]}, 'case': _strip(c), 'what': f'call {j} of {c["k"]} on one Dropout ({c.get("via", "layer")}), back-propagated after the later calls: {v[1]}'}
+                continue
             wy = [0.0 if u <= p else x * scale for x, u in zip(c['xs'][j], us)]
             wg = [0.0 if u <= p else g * scale for g, u in zip(c['gs'][j], us)]
-            gy, gg = common.parse_floats(r[2 * j]), common.parse_floats(r[2 * j + 1])
             if any(abs(a - b) > 1e-12 * (1 + abs(b)) for a, b in zip(gy, wy)):
                 return {'key': {'kind': 'dropseq', 'cls': 'forward'}, 'case': _strip(c), 'what': f'call {j}: output {gy}, expected {wy}'}
             if any(abs(a - b) > 1e-12 * (1 + abs(b)) for a, b in zip(gg, wg)):
@@ -599,9 +838,12 @@ def oracle(c):
         res, gr = r
         xs, us, p = c['xs'], c['_us'], c['p']
         if not c['training']:
-            if res != xs or not c['_same']:
+            if res != xs or c['_same'] is False:
                 return {'key': {'kind': 'drop', 'cls': 'eval'}, 'case': _strip(c), 'what': 'eval-mode dropout is not the identity'}
             return None
+        if not c['_attr']:
+            v = relations(p, xs, c['gs'], res, gr)
+            return {'key': {'kind': 'drop', 'cls': v[0]}, 'case': _strip(c), 'what': f'Dropout ({c.get("via", "layer")}), training mode: {v[1]}'} if v else None
         scale = 1 / (1 - p) if p < 1 else 1.0
         want = [0.0 if u <= p else x * scale for x, u in zip(xs, us)]
         wg = [0.0 if u <= p else g * scale for g, u in zip(c['gs'], us)]
@@ -610,14 +852,24 @@ def oracle(c):
         if any(abs(a - b) > 1e-12 * (1 + abs(b)) for a, b in zip(gr, wg)):
             return {'key': {'kind': 'drop', 'cls': 'backward'}, 'case': _strip(c), 'what': f'gradient {gr}, expected {wg} (same mask)'}
         return None
+    if c['kind'] == 'dropstat':
+        v = outcome(lambda: _dropstat_impl(c))
+        if isinstance(v, str):
+            return {'key': {'kind': 'dropstat', 'cls': 'rejected'}, 'case': _strip(c), 'what': 'Dropout raised'}
+        return {'key': {'kind': 'dropstat', 'cls': v[0]}, 'case': _strip(c), 'what': f'Dropout ({c["via"]}, p={c["p"]}, {c["dt"]}) on {c["n"]} elements, input with exact zeros ({c["style"]}): {v[1]}'} if v else None
     if c['kind'] == 'tree' and c['layer'] == 'drop':
         return _tree_drop_oracle(c)
     # batch norm: recompute with plain numpy from the documented rule
     C = c['C']
     rm, rv, nbt, training = np.zeros(C), np.ones(C), 0, True
     g, b = (np.ones(C), np.zeros(C)) if c['affine'] else (None, None)
-    w = BNWorld(c)
+    w = outcome(lambda: BNWorld(c))
+    if isinstance(w, str):
+        return {'key': {'kind': 'bn', 'cls': 'ctor-rejected'}, 'case': _strip(c, 1), 'what': f'{show_call(c)} raised'}
     bn = w.bn
+    want = f"weight={int(c['affine'])} bias={int(c['affine'])} running_mean={int(c['track'])} running_var={int(c['track'])} nbt=0 params={2 * int(c['affine'])}"
+    if _attrs(bn) != want:
+        return {'key': {'kind': 'bn', 'cls': 'options'}, 'case': _strip(c, 1), 'what': f'{show_call(c)} owns {_attrs(bn)}; its options say {want}'}
     spec = ModeSpec()
     for k, e in enumerate(c['evs']):
         def fail(cls, what):
@@ -640,7 +892,7 @@ def oracle(c):
             r = outcome(lambda: w.do(e))
             if r == 'rejected':
                 return fail('rejected', f'{e[0]} raised')
-            if e[0][0] == 't':
+            if e[0][0] == 't' and e[0] not in ('train', 'eval'):       # events of the module tree
                 spec.run(e)
                 training = spec.mode[0]
                 flags = [bool(x.training) for x in w.tree.nodes]
@@ -705,8 +957,12 @@ def _tree_drop_oracle(c):
             if not cl['same'] or cl['y'] != xs or cl['g'] != gs:
                 return fail('eval', f'the last mode switch that reached the Dropout layer was eval(), but the call is not the identity: y={cl["y"]} for x={xs} ({cl["draws"]} draws)')
             continue
-        if cl['draws'] != len(xs):
-            return fail('train', f'the last mode switch that reached the Dropout layer was train(), but the call made {cl["draws"]} draws for {len(xs)} elements')
+        if not cl['attributed']:
+            if cl['same'] and 0 < p:
+                return fail('train', 'the last mode switch that reached the Dropout layer was train(), but the call handed its input on (as in eval mode)')
+            v = relations(p, xs, gs, cl['y'], cl['g'])
+            if v: return fail(v[0], v[1])
+            continue
         wy = [0.0 if u <= p else x * scale for x, u in zip(xs, us)]
         wg = [0.0 if u <= p else g_ * scale for g_, u in zip(gs, us)]
         if any(abs(a - b) > 1e-12 * (1 + abs(b)) for a, b in zip(cl['y'], wy)):
